@@ -9,6 +9,7 @@ Model side: Model/Progress.v (on Model/Outgoing.v) + Spec/ProgressSpec.v via bin
 """
 import asyncio, json, logging, os
 import core
+import priv
 import c05
 
 logging.disable(logging.CRITICAL)
@@ -67,12 +68,14 @@ def run_case(case):
     trace = []
     foreign = []
 
+    error_handler = priv.error_handler(server)     # what the real call sites hand to the read loops
+
     def feed(obj):
         body = json.dumps(obj).encode("utf-8")
         try:
             proto.handle_message(json.loads(body, object_hook=proto.structure_message))
         except Exception as exc:
-            server._report_server_error(exc, JsonRpcException)
+            error_handler(exc, JsonRpcException)
 
     def flush():
         loop.run_until_complete(asyncio.sleep(0))
@@ -242,7 +245,9 @@ class C20(core.Property):
                     "extraction with ExtrOcamlBasic only + ocaml/c20_driver.ml + conv_io/conv_n/conv_nat",
                     "harness/c20.py + harness/c05.py (sequence enumeration, driver of the real Progress, oracle)",
                     "modelled not verified: dict get/setdefault/in, concurrent.futures.Future.cancel, "
-                    "asyncio.wrap_future + await (a coroutine continues in a later loop step)"]
+                    "asyncio.wrap_future + await (a coroutine continues in a later loop step)",
+                    priv.trusted(["protocol.request_futures", "protocol.result_types", "server.error_handler"])]
+    private = ["protocol.request_futures", "protocol.result_types", "server.error_handler"]
     assumptions = ["create_async coroutines continue only when the loop runs (event resume)",
                    "tokens are JSON ints or strings"]
 
